@@ -113,6 +113,11 @@ func newBed(c *fw.Ctx, o bedOpt) (*bed, error) {
 	if o.Variant == "plus-outlet" {
 		accs = append(accs, accessory.NewOutlet(accessory.Info{Name: "Outlet"}).Accessory)
 	}
+	if strings.HasPrefix(o.Variant, "extra-aid:") { // an additional accessory with an explicit id: a different structure per id
+		var id uint64
+		fmt.Sscanf(o.Variant, "extra-aid:%d", &id)
+		accs = append(accs, accessory.NewOutlet(accessory.Info{Name: "Outlet", ID: id}).Accessory)
+	}
 	b.Bridge.OnIdentify(func() { atomic.AddInt32(&b.identify, 1) })
 	w, err := world.Start(world.Options{Dir: b.Dir, Pin: b.Pin, Snapshot: o.Snapshot}, b.Bridge.Accessory, accs...)
 	if err != nil {
